@@ -20,6 +20,7 @@ JOIN_CODES = [27, 15, 16, 25, 22, 23, 14, 26, 1]
 SYNC_CODES = [27, 22, 25, 16, 15, 14]
 HB_CODES = [27, 22, 25, 15, 16, 14]
 COMMIT_CODES = [25, 22, 27, 15, 16, 14, 12]
+LIVES = [0.05, 0.2, 0.5, 1.2, 2.5, 6.0]  # "live": let the simulated world run (events and timers in time order) for so many virtual seconds
 MD_CODES = [5, 3]  # topic-level metadata errors: LEADER_NOT_AVAILABLE, UNKNOWN_TOPIC_OR_PARTITION
 APIS = ["join_group", "sync_group", "heartbeat", "offset_commit", "find_coordinator", "offset_fetch", "fetch"]
 CODES = {"join_group": JOIN_CODES, "sync_group": SYNC_CODES, "heartbeat": HB_CODES, "offset_commit": COMMIT_CODES, "find_coordinator": [15, 16, 14],
@@ -62,7 +63,7 @@ class Inv(object):
 
 class GRPEngine(Engine):
     NAME = "GRP"
-    MACROS = ["stable", "stable", "rebalance", "rebalance", "evict", "commitreject", "joinfault", "syncfault", "coordfault", "netfault", "procfail", "stopmid", "leave", "lookupfault"]
+    MACROS = ["stable", "stable", "rebalance", "rebalance", "evict", "commitreject", "joinfault", "syncfault", "coordfault", "netfault", "procfail", "stopmid", "leave", "lookupfault", "overlap"]
     MACRO_ONE_IN = 4
 
     @classmethod
@@ -565,6 +566,23 @@ class GRPEngine(Engine):
             return up + [["procmode", "sync_raise"], app, ["wait", 1], ["run", 60], ["wait", 2], ["run", 40]]
         if kind == "leave":
             return up + [["ghost_add", False], ["wait", 2], ["run", 60], ["ghost_leave", 0], ["wait", 3], ["run", 60]]
+        if kind == "overlap":
+            # two independent reasons to rejoin overlap: a heartbeat whose error answer is delivered late (held), a commit the coordinator
+            # rejects, optionally a JoinGroup error and a failing coordinator lookup (whose retry timer is then pending), while the next
+            # JoinGroup may be left unanswered for a while - at most one exchange may be in flight whatever fires when
+            steps = up + [["live", 3], ["err", b, "heartbeat", draw(st.sampled_from([27, 22, 25, 16])), 1], ["hold", b, "heartbeat"], ["liveto", "heartbeat", 4], ["live", 0]]
+            if draw(st.integers(0, 2)):
+                steps.append(["err", b, "join_group", draw(st.sampled_from([16, 16, 15, 27, 25])), 1])
+            lookup = draw(st.integers(0, 3)) > 0
+            if lookup:
+                steps.append(["err", b, "find_coordinator", draw(st.sampled_from([15, 15, 16])), draw(st.integers(1, 2))])
+            steps += [["err", b, "offset_commit", draw(st.sampled_from([25, 22, 27])), 1], app, ["liveto", "offset_commit", 3], ["live", 0]]
+            if lookup:
+                steps += [["liveto", "find_coordinator", 3], ["live", 0]]
+            if draw(st.integers(0, 3)):
+                steps.append(["hold", b, "join_group"])
+            steps += [["release", 0], ["live", draw(st.integers(1, 4))], ["release", 0], ["live", 4], ["live", 5]]
+            return steps
         if kind == "lookupfault":
             # a topic is in a transient metadata error state (being created, leader election) while the member joins or rejoins: as
             # leader it has to look the partitions of every subscribed topic up between JoinGroup and SyncGroup
@@ -604,7 +622,7 @@ class GRPEngine(Engine):
         if w.pending():
             ops += ["run"] * 10 + ["ev"]
         if w.next_timer() is not None:
-            ops += ["timer", "timer", "wait", "wait"]
+            ops += ["timer", "timer", "wait", "wait", "live", "live"]
         ops += ["err", "err", "hold", "coord", "down", "up", "leader", "mderr"]
         if self.cluster.held:
             ops += ["release", "release"]
@@ -622,6 +640,8 @@ class GRPEngine(Engine):
             return [op, draw(st.integers(0, 3))]
         if op == "rot":
             return ["rot", draw(st.integers(0, 5))]
+        if op == "live":
+            return ["live", draw(st.integers(0, len(LIVES) - 1))]
         if op == "run":
             return ["run", draw(st.integers(1, 25))]
         if op == "ev":
@@ -714,6 +734,11 @@ class GRPEngine(Engine):
                 if not p:
                     break
                 self._process(p[0])
+        elif op == "live":
+            self._live(LIVES[step[1] % len(LIVES)])
+        elif op == "liveto":
+            n0 = len(self.writes)
+            self._live(LIVES[step[2] % len(LIVES)], until=lambda: any(x["api"] == step[1] and not x.get("resend") for x in self.writes[n0:]))
         elif op == "runto":
             # deliver pending events until the member has written a new request of the given kind (then `extra` more events)
             n0 = len(self.writes)
@@ -860,6 +885,18 @@ class GRPEngine(Engine):
                 self.labels.add("stop-deferred-failed:%s" % self.stop_watch.value.type.__name__)
         self._check_backoffs()
         self._check_wedged()
+        # C17 (2): no Kafka error ends the membership - every one of them leads to a rejoin; only a non-Kafka error (the processor's) surfaces
+        if self.started and self.stop_called_tick is None and not getattr(self, "_term_checked", False) and self.start_watch.state != "pending":
+            self._term_checked = True
+            if self.start_watch.state == "err" and self.proc_error_tick is None and not any(i.state == "failed" for i in self.invocations):
+                from afkak.common import KafkaError
+
+                f = self.start_watch.value
+                if f.check(KafkaError):
+                    self.note("C17.backoff", "C17.member-terminated-by-kafka-error/%s" % f.type.__name__, "neither stop() was called nor did the processor fail, yet the Deferred returned by start() fired with the Kafka error %.160r: the member gave up instead of rejoining (faults so far: %s)" % (
+                        f.value, sorted(self.fault_kinds)))
+                else:
+                    self.labels.add("start-deferred-failed-without-processor-failure:%s" % f.type.__name__)
         while self._dot_checks:
             kind, t0, conn = self._dot_checks.pop()
             if not conn.client_closed and not conn.dropped and not conn.lost_delivered and self.stop_called_tick is None:
@@ -965,12 +1002,19 @@ class GRPEngine(Engine):
         g = self.g
         return g.state == simgroup.STABLE and era["member"] in g.members and era["generation"] == g.generation and era.get("heartbeats_ok", 0) > 0
 
-    def _quiet(self, horizon_s, until=None):
+    def _live(self, seconds, until=None):
+        """let the world run: pending events and timers in time order, for `seconds` of virtual time or until `until()` holds"""
+        w = self.world
+        target = w.now + seconds
+        if self._quiet(seconds, until=until, every=1) in ("horizon", "quiescent") and w.now < target:
+            w.set_time(target)
+
+    def _quiet(self, horizon_s, until=None, every=4):
         w = self.world
         horizon = w.now + horizon_s
         n = 0
         while n < 30000:
-            if until is not None and n % 4 == 0 and until():
+            if until is not None and n % every == 0 and until():
                 return "done"
             p = w.pending()
             if p:
